@@ -155,7 +155,15 @@ def _vc_panic(v):
 
 
 def _vc_lit(v):
-    v["exp"]["ok"] = not v["exp"]["ok"]
+    ok = v["exp"]["ok"]
+    if isinstance(ok, str):           # IP kinds: "yes" | "no" | "unspec" (not judged)
+        if ok == "unspec":
+            return False
+        v["exp"]["ok"] = "no" if ok == "yes" else "yes"
+        if ok == "no":
+            v["exp"]["v"] = {"a": [], "b": [], "len": 0}
+        return True
+    v["exp"]["ok"] = not ok
     return True
 
 
@@ -265,12 +273,13 @@ CHECKS = {
     "C06": dict(
         level="model_checking",
         rule="every candidate text of <= MaxLen characters over per-form alphabets (integers: - 0 1 7 8 9 a f x g .; quoted bodies: "
-             "\\ \" x 0 7 8 a g +; raw: \" # a; hex pairs: 0 a f g + : - .; index literals) is lexed by the character-level "
-             "specification (WfLexLit) and embedded in a filter: the engine must accept exactly the well-formed literals that span "
+             "\\ \" x 0 7 8 a g + e-acute; raw: \" # a; hex pairs: 0 a f g + : - .; index literals; IP texts: 1 0 . / : f, in `ip == T` and "
+             "`ip in {T}`; 11 base addresses x every prefix length 0..130 and every pair as a range) is lexed by the character-level "
+             "specification (WfLexLit, WfLexIp: std's IPv4/IPv6 text grammar, blocks without host bits, ordered same-family ranges) and embedded in a filter: the engine must accept exactly the well-formed literals that span "
              "the whole text and decode the specified value. Random values rendered in every form (and corrupted variants, i64 and "
              "u32 boundaries) are validated by Trace_Lit; literals inside whole filters are covered by the Trace_Lang checks.",
         exhaustive=True,
-        assumptions=["Rust integer formatting renders random values; IP address text forms are limited to std's renderings (checked at token level)"],
+        assumptions=["Rust integer formatting renders random values", "short IPv4 forms accepted by the cidr crate (10, 10.1, 010.1.2) are not judged (the documentation does not define them)"],
         stages=[
             mc("int", "MC_C06.tla", "MC_C06_int.cfg", replay_cmd="replay-lit"),
             mc("index", "MC_C06.tla", "MC_C06_index.cfg", replay_cmd="replay-lit"),
@@ -278,6 +287,9 @@ CHECKS = {
             mc("raw", "MC_C06.tla", "MC_C06_raw.cfg", replay_cmd="replay-lit"),
             mc("hex", "MC_C06.tla", dict(quick=None, thorough="MC_C06_hex.cfg"), replay_cmd="replay-lit"),
             mc("hex5", "MC_C06.tla", dict(quick="MC_C06_hex5.cfg", thorough=None), replay_cmd="replay-lit"),
+            mc("ip-items", "MC_C06.tla", dict(quick="MC_C06_ip6.cfg", thorough="MC_C06_ip7.cfg"), replay_cmd="replay-lit"),
+            mc("ip-addresses", "MC_C06.tla", dict(quick="MC_C06_ipeq6.cfg", thorough="MC_C06_ipeq7.cfg"), replay_cmd="replay-lit"),
+            mc("ip-blocks-and-ranges", "MC_C06.tla", "MC_C06_blocks.cfg", replay_cmd="replay-lit"),
             trace("random-literals", "Trace_Lit", ["gen-lit"], 6000, 400000, shards=SH),
             lang("in-filters", "rich", 1500, 40000, ["--nctx", "2", "--depth", "2", "--callpct", "10"], shards=SH, seed_off=3),
         ],
@@ -497,6 +509,13 @@ CHECKS = {
         ],
     ),
 }
+
+
+def replay_env_for(prop, stage):
+    for st in CHECKS.get(prop, {}).get("stages", []):
+        if st["name"] == stage:
+            return st.get("replay_env") or st.get("gen_env")
+    return None
 
 
 def replay_cmd_for(prop, stage):
